@@ -2167,3 +2167,10 @@ VARIANTS = [
          (IO, "compiler_error = (options.input, e.lineno, e.message)",
           "compiler_error = (e.lineno, e.message)")]},
 ]
+
+EXPLANATION += (
+    ' R15.25 (rules/c15_replace_fields.py): every `X.Replace(f=...)` in pytype/ whose receiver can be typed from the source (visitor dispatch `VisitX(self, node)`, pytd annotations, `cast(pytd.X, ..)`, attribute chains through the declared field types of the pytd schema, loop targets over tuple fields, reaching definitions, parameters of nested functions through their call sites; narrowed by isinstance / `type(x) is C` / assert tests and by dominating attribute reads) names a field of every class the receiver can be: msgspec.structs.replace raises TypeError for a property such as GenericType.name, and nothing catches it before io.generate_pyi (D59, repaired). Receivers that cannot be typed, or whose guards hand the receiver to an unmodelled predicate, are not judged (the count is in the facts).'
+)
+ASSUMPTIONS += [
+    'R15.25: the field annotations in pytd/pytd.py describe what the nodes hold at run time (msgspec enforces them on decode only); a receiver narrowed by value tests on a *derived* variable (a regex on its name) is judged with its declared type.',
+]
